@@ -39,6 +39,8 @@ js::Value Op::to_json() const
     case K_EXTEND:
         v.set("obj", Value::I(obj)).set("maxn", Value::U(maxn)).set("obj_threads", Value::U(obj_threads));
         v.set("n", Value::U(n));
+        if (extension > 1)
+            v.set("extension", Value::I(extension));
         if (kind == K_EXTEND)
             v.set("n_ext", Value::U(n_ext));
         v.set("ncols", Value::U(ncols)).set("nphase", Value::U(nphase)).set("nblock", Value::U(nblock));
@@ -109,6 +111,9 @@ Op Op::from_json(const js::Value &v)
     o.maxn = v.getu("maxn", 1);
     o.obj_threads = (uint32_t)v.getu("obj_threads", 1);
     o.n = v.getu("n", 1);
+    o.extension = (int)v.geti("extension", 1);
+    if (o.extension < 1)
+        o.extension = 1;
     o.n_ext = v.getu("n_ext", o.n);
     o.ncols = v.getu("ncols", 1);
     o.nphase = v.getu("nphase", 3);
@@ -367,6 +372,17 @@ struct Gen
             }
             o.nphase = pick_nphase(logn);
             o.dst = (int)r.below(3);
+            if ((kind == K_NTT || kind == K_INTT) && o.n >= 2 && r.chance(1, 8))
+            {
+                // an object built with the public `extension` constructor argument, used directly: rows at and
+                // beyond n/extension of the input count as zero (what extendPol's internal transform relies on)
+                unsigned le = (unsigned)r.range(1, std::min(logn, 3u));
+                o.extension = 1 << le;
+                if (r.chance(1, 2))
+                    o.nphase = 2 * r.range(1, 2); // even phase counts take the in-place padding path
+                if (r.chance(1, 2))
+                    o.nblock = 1;
+            }
         }
         o.nblock = pick_nblock(o.ncols);
         o.buffer = r.chance(1, 2);
@@ -563,7 +579,23 @@ Plan generate(const std::string &profile, uint64_t seed, const GenLimits &lim)
         {
             maybe_icv(1, 4);
             int kind = profile == "C03" ? K_NTT : profile == "C05" ? K_EXTEND : (r.chance(1, 2) ? K_INTT : K_ROUNDTRIP);
+            bool direct_ext = profile == "C05" && r.chance(1, 5);
+            if (direct_ext)
+                kind = r.chance(2, 3) ? K_NTT : K_INTT;
             transform(kind, r.chance(1, 5) ? -1 : 0);
+            Op &o = p.ops.back();
+            if (direct_ext && o.extension == 1 && o.n >= 2)
+            {
+                // the zero-padding transform object behind extendPol, used directly
+                unsigned lg = 0;
+                while (((uint64_t)1 << (lg + 1)) <= o.n)
+                    lg++;
+                o.extension = 1 << (int)r.range(1, std::min(lg, 3u));
+                if (r.chance(1, 2))
+                    o.nphase = 2 * r.range(1, 2);
+                if (r.chance(1, 2))
+                    o.nblock = 1;
+            }
         }
     }
     else if (profile == "C08")
